@@ -20,7 +20,8 @@ EXTENDS Naturals, Sequences, FiniteSets, TLC
 (* are switched ON.  AsImplemented is the current tree; {} is the repaired design.                 *)
 CONSTANT Dev
 AsImplemented == {"HardStateSavedOnlyOnDrop", "Prev0ResetsFollowerLog", "GappedAppendRequest",
-                  "VoteResetOnAnyStepDown", "EmptyAEAckReportsWholeLog", "FollowerCommitUsesWholeLog"}
+                  "VoteResetOnAnyStepDown", "EmptyAEAckReportsWholeLog", "FollowerCommitUsesWholeLog",
+                  "SingleNodeFromInitialConfig", "BatchPromoteAnySize", "MembershipNotReplayedOnRestart"}
 
 Max(a, b) == IF a > b THEN a ELSE b
 Min(a, b) == IF a < b THEN a ELSE b
